@@ -190,6 +190,10 @@ func main() {
 		{"v1-contract-empty", "v1only", []string{"form1", "prove1"}, 2, 2, []chain.AbsOut{{600000, "B"}}},
 		// three transactions in one block: a payment, a siafund transfer, then a parent named by a foreign id
 		{"v2-confuse", "v2only", []string{"pay", "sf"}, 1, 3, []chain.AbsOut{{1199, "B"}}},
+		// below the ephemeral-output height a siafund output may be spent in the block that creates it - but only once
+		{"v2-legacy-sf", "v2only", []string{"sf"}, 1, 3, []chain.AbsOut{{1199, "B"}}},
+		// three uses of one v2 contract in one block (revise, renew, then anything)
+		{"v2-renewal-3", "v2only", []string{"form2", "rev2", "renew2"}, 2, 3, []chain.AbsOut{{600000, "B"}, {300000, "B"}}},
 	}
 	if c.Thorough {
 		fams = append(fams, fam{"v2-renewal", "v2only", []string{"form2", "rev2", "renew2"}, 3, 2, []chain.AbsOut{{600000, "B"}, {300000, "B"}}},
@@ -201,6 +205,9 @@ func main() {
 		p.GenSC = f.gen
 		if f.shape == "mixed" {
 			p.AllowH, p.RequireH, p.EphH = 2, 4, 3
+		}
+		if f.name == "v2-legacy-sf" {
+			p.EphH = 100
 		}
 		cfg := chain.BaseConfig(p)
 		cfg.Addrs = []string{"B"}
